@@ -10,6 +10,7 @@ import (
 	"fmt"
 	"net"
 	"runtime/debug"
+	"strings"
 	"sync"
 	"testing"
 	"testing/synctest"
@@ -118,6 +119,8 @@ type Run struct {
 	haveAccepted bool
 	Stability []string // C08: differences between snapshot and live object
 	HarnessErr string
+	BubbleDeadlock string
+	allCancels []context.CancelFunc
 	start time.Time
 }
 
@@ -142,6 +145,18 @@ func (r *Run) dial(ctx context.Context) (net.Conn, error) {
 	}
 	if r.dialPlan == stopDialErr {
 		return nil, fmt.Errorf("sim: dial refused")
+	}
+	if err := ctx.Err(); err != nil {
+		// net.Dialer.DialContext refuses an already cancelled context
+		return nil, err
+	}
+	if r.dialPlan == stopCancelAtDial {
+		// the caller's cancel lands exactly when the TCP handshake completes:
+		// the connection exists, the driver has not yet started watching ctx
+		if r.att != nil {
+			r.att.Causes = append(r.att.Causes, "cancel-at-dial")
+		}
+		r.cancel()
 	}
 	m := &simMaster{h: r.sc.Hist}
 	if r.att != nil {
@@ -321,6 +336,13 @@ func Execute(t *testing.T, sc *Scenario, tape *Tape) (r *Run) {
 	}()
 	defer func() {
 		if p := recover(); p != nil {
+			msg := fmt.Sprint(p)
+			if strings.Contains(msg, "deadlock") && r.sutStuck() {
+				// a library goroutine (or an Error() call) that nothing can unblock is
+				// still parked when the bubble ends: already recorded as a violation
+				r.BubbleDeadlock = msg
+				return
+			}
 			r.HarnessErr = fmt.Sprintf("bubble panic: %v", p)
 		}
 	}()
@@ -329,6 +351,17 @@ func Execute(t *testing.T, sc *Scenario, tape *Tape) (r *Run) {
 		r.controller()
 	})
 	return r
+}
+
+// sutStuck reports whether the run recorded a hang, a blocked Error() call or
+// a leaked library goroutine (which explains a deadlock at the end of the bubble).
+func (r *Run) sutStuck() bool {
+	for _, a := range r.Results {
+		if a.Hang || a.ErrorBlocked || len(a.LeakAfterRet) > 0 || len(a.LeakAfterErr) > 0 {
+			return true
+		}
+	}
+	return false
 }
 
 func (r *Run) newStreamer(start Pos) {
@@ -509,6 +542,7 @@ func (r *Run) runAttempt(idx int, plan AttemptPlan) bool {
 	r.mu.Unlock()
 	if r.ctx == nil || r.ctx.Err() != nil || plan.FreshStreamer {
 		r.ctx, r.cancel = context.WithCancel(context.Background())
+		r.allCancels = append(r.allCancels, r.cancel)
 	}
 	ctx := r.ctx
 	if plan.Stop == stopCancelInHandshake && r.sch.Chance(1, 3) {
@@ -577,6 +611,9 @@ func (r *Run) runAttempt(idx int, plan AttemptPlan) bool {
 			r.logf("step cap reached")
 			r.abortAttempt()
 			return false
+		}
+		if !causeFired && len(att.Causes) > 0 {
+			causeFired = true // injected from inside the dial function
 		}
 		h, m := r.parked()
 		conn := r.conn
@@ -904,8 +941,8 @@ func (r *Run) connReading() bool {
 
 // abortAttempt unblocks everything so that the bubble can end.
 func (r *Run) abortAttempt() {
-	if r.cancel != nil {
-		r.cancel()
+	for _, c := range r.allCancels {
+		c()
 	}
 	for i := 0; i < 50; i++ {
 		synctest.Wait()
